@@ -20,7 +20,7 @@ def source_tables():
     return offsets, abbrs, conflicts
 
 
-_OFF = re.compile(r"^(?:UTC|GMT)?([+-])(\d{1,2})(?::?(\d{2}))?$")
+_OFF = re.compile(r"^(?:UTC|GMT)?([+-])(\d{1,2})(?::?(\d{2}))?$", re.I)
 
 
 def oracle_tz(name):
